@@ -44,8 +44,9 @@ impl<const P: i64> PrimeResidueClass<P> {
 
 impl<const P: i64> From<i64> for PrimeResidueClass<P> {
     fn from(n: i64) -> Self {
+        let r = n % P;
         PrimeResidueClass {
-            value: if n >= 0 { n % P } else { n % P + P }
+            value: if r < 0 { r + P } else { r }
         }
     }
 }
@@ -53,8 +54,9 @@ impl<const P: i64> From<i64> for PrimeResidueClass<P> {
 
 impl<const P: i64> From<i32> for PrimeResidueClass<P> {
     fn from(n: i32) -> Self {
+        let r = (n as i64) % P;
         PrimeResidueClass {
-            value: if n >= 0 { (n as i64) % P } else { (n as i64) % P + P }
+            value: if r < 0 { r + P } else { r }
         }
     }
 }
